@@ -11,9 +11,16 @@ SYMBOLS = {
     'infty': '∞', 'textendash': '–', 'times': '×', 'leq': '≤',
     'to': '→', 'ae': 'æ',
     '&': '&', '$': '$', '{': '{', '}': '}', '#': '#', '_': '_', '%': '%',
+    'i': 'ı', 'j': 'ȷ',
 }
-ACCENTS = {"'": '́', '`': '̀', '"': '̈', 'c': '̧', '^': '̂',
-           '~': '̃', 'v': '̌', 'hat': '̂', 'bar': '̅'}
+# accent macro -> Unicode combining character (the standard TeX <-> Unicode correspondence)
+ACCENTS = {"'": '\u0301', '`': '\u0300', '"': '\u0308', 'c': '\u0327', '^': '\u0302',
+           '~': '\u0303', 'v': '\u030c', 'hat': '\u0302', 'bar': '\u0305',
+           'H': '\u030b', 'k': '\u0328', '=': '\u0304', '.': '\u0307', 'd': '\u0323',
+           'r': '\u030a', 'u': '\u0306', 'b': '\u0331',
+           'vec': '\u20d7', 'tilde': '\u0303', 'dot': '\u0307', 'ddot': '\u0308'}
+DISPLAY_ENVS = ('equation', 'equation*', 'align', 'align*', 'gather', 'gather*', 'multline',
+                'multline*', 'eqnarray', 'eqnarray*')
 SPECIALS = {'~': ' ', '--': '–', '---': '—', '``': '“', "''": '”',
             '!`': '¡', '?`': '¿', '&': '   '}
 FONT = ('textbf', 'emph', 'textit', 'textrm', 'textsc', 'textsl', 'text', 'mathrm')
@@ -119,7 +126,8 @@ class Model(object):
         if name in SYMBOLS:
             return SYMBOLS[name]
         if name in ACCENTS:
-            base = self.arg(slots[0], P).strip()
+            # an accent over dotless i / j goes on the letter itself
+            base = self.arg(slots[0], P).strip().replace('ı', 'i').replace('ȷ', 'j')
             return ''.join(unicodedata.normalize('NFC', ch + ACCENTS[name]) for ch in base)
         if name in ('frac',):
             return self.arg(slots[0], P) + '/' + self.arg(slots[1], P)
@@ -135,8 +143,8 @@ class Model(object):
         name = it[1]
         if name in TRANSPARENT_ENVS:
             return self.list(it[3], P)
-        if name == 'equation':
-            return self.math(it[3], P, True, '\\begin{equation}', '\\end{equation}',
+        if name in DISPLAY_ENVS:
+            return self.math(it[3], P, True, '\\begin{%s}' % name, '\\end{%s}' % name,
                              self.render([it]))
         raise ValueError('environment not in the core sublanguage: %r' % name)
 
